@@ -135,7 +135,7 @@ func docID(n int) string { return fmt.Sprintf("d%02d", n) }
 
 // the analysers, applied by the harness itself (Sem.v does not model analysis)
 func analyse(field, text string) []string {
-	if field == "k" {
+	if field == "k" || field == "w" {
 		if text == "" {
 			return nil
 		}
